@@ -64,6 +64,9 @@ def main():
                 breaks=open(os.path.join(d, "README.md")).read()[:1500] if os.path.exists(os.path.join(d, "README.md")) else "",
                 ran=[], detected_by={}, date=time.strftime("%Y-%m-%d %H:%M"))
     sh("git checkout -- . ", wt)
+    # trials always run on top of the current /repo HEAD (fix: commits land there while agents work)
+    rc, head = sh("git -C /repo rev-parse HEAD", wt)
+    sh("git checkout -q --detach %s" % head.strip(), wt)
     rc0, out0, how = run_demo(wt, k)
     meta["demo_clean_tree"] = dict(rc=rc0, how=how, tail=out0[-400:])
     rc, out = sh("git apply %s" % patch, wt)
